@@ -11,6 +11,7 @@ import (
 	"fmt"
 	"math"
 	"math/big"
+	"strings"
 	"time"
 
 	specqbft "github.com/bloxapp/ssv-spec/qbft"
@@ -187,8 +188,8 @@ func (w *worker) honestSet() []honest {
 	ssealed, err := sni.Seal(netKey)
 	must(err)
 	out = append(out, honest{name: "signednodeinfo/sealed-envelope", b: ssealed, targets: []target{{entry: eSNIConsume, hists: []int{0}}}})
-	for _, s := range []string{records.ZeroSubnets, records.AllSubnets, "0x" + records.AllSubnets, "0123456789abcdef0123456789ABCDEF"} {
-		out = append(out, honest{name: "subnets/" + s[:6], b: []byte(s), targets: []target{{entry: eSubnetsStr, hists: []int{0}}}})
+	for _, s := range []string{records.ZeroSubnets, records.AllSubnets, "0x" + records.AllSubnets, "0123456789abcdef0123456789ABCDEF", records.AllSubnets + "ff"} {
+		out = append(out, honest{name: fmt.Sprintf("subnets/%s(%d chars)", s[:6], len(s)), b: []byte(s), targets: []target{{entry: eSubnetsStr, hists: []int{0}}, {entry: eHandshakeSubnets, hists: []int{0}}}})
 	}
 	out = append(out, honest{name: "enr/with-subnets", b: enrWithSubnets(), targets: []target{{entry: eSubnetsEntry, hists: []int{0}}}})
 	return out
@@ -242,6 +243,7 @@ func (w *worker) stageShort() {
 		{entry: eNIUnmarshal, hists: []int{0}}, {entry: eNIConsume, hists: []int{0}},
 		{entry: eSNIUnmarshal, hists: []int{0}}, {entry: eSNIConsume, hists: []int{0}},
 		{entry: eSubnetsStr, hists: []int{0}}, {entry: eSubnetsEntry, hists: []int{0}},
+		{entry: eHandshakeSubnets, hists: []int{0}},
 	}
 	enum.ShortStrings(2, func(m []byte) {
 		if !w.own() {
@@ -282,7 +284,7 @@ func (w *worker) stageMutations() {
 					}
 					res := w.eval(c)
 					okClass := res.Class == "accept" || res.Class == "ok" || res.Class == "panic" || res.Class == "panic(history)" ||
-						(len(res.Class) > 6 && res.Class[:6] == "ok len") || (h.name == "event/data" && t.entry == eSSV)
+						strings.HasPrefix(res.Class, "ok") || (h.name == "event/data" && t.entry == eSSV)
 					if !okClass {
 						w.fatal("honest encoding %s on %s is not accepted: %s", h.name, t.entry, res.Class)
 					}
@@ -311,8 +313,13 @@ var signerSets = [][]uint64{{}, {0}, {1}, {2}, {5}, {1, 1}, {2, 1}, {1, 2, 3}, {
 func (w *worker) structuredTargets(kind, role int, mt uint64) []target {
 	id := w.msgIDOf(kind, role)
 	topic := w.topicOf(w.rn.env.PKs[kind])
-	all := []int{0, 1, 2, 3}
-	two := []int{0, 2}
+	// quick: ValidateSSVMessage after {empty, full round}, pubsub after the empty history;
+	// thorough: ValidateSSVMessage after all four histories, pubsub after {empty, full round}
+	all := []int{0, 2}
+	two := []int{0}
+	if w.thorough {
+		all, two = []int{0, 1, 2, 3}, []int{0, 2}
+	}
 	if role > 6 || kind != valenv.VKnown {
 		all, two = []int{0}, []int{0}
 	}
@@ -339,19 +346,21 @@ func (w *worker) stageConsensus() {
 	// (slot*12 wraps modulo 2^64), so they get past the early/late checks like an honest height
 	heights := []uint64{0, 1, cur - 22, cur, 1 << 63, 1<<63 + cur + 1, math.MaxUint64}
 	rounds := []uint64{0, 1, 2, 12, 13, math.MaxInt64, math.MaxUint64}
+	// (clock, signature byte) variants: 1 s into the slot with a non-zero signature; thorough adds
+	// 11.9 s into the slot (estimated round 6) and the all-zero signature
 	intos := []int{defaultInto}
 	sigs := []byte{1}
 	if w.thorough {
 		heights = []uint64{0, 1, cur - 22, cur - 1, cur, cur + 1, math.MaxInt64, 1 << 63, 1<<63 + cur, 1<<63 + cur + 1, math.MaxUint64}
 		rounds = []uint64{0, 1, 2, 6, 7, 12, 13, math.MaxInt32, 1 << 32, math.MaxInt64, 1 << 63, math.MaxUint64}
-		intos = []int{defaultInto, 11900}
-		sigs = []byte{1, 0}
+		intos = []int{defaultInto, 11900, defaultInto}
+		sigs = []byte{1, 1, 0}
 	}
 	fds := 4   // match, mismatch, empty, same data as the history's proposal
 	justs := 5 // none, valid, truncated, nested depth 3, 14 entries
 	roles := 9
-	dims := []int{len(intos), len(sigs), roles, len(types), len(heights), len(rounds), len(signerSets), fds, justs}
-	w.beginStage(fmt.Sprintf("consensus grammar: clock%v x signature%v x role 0..8 x msgType%v x height%v x round%v x %d signer sets x fulldata{match,mismatch,empty,history's} x justifications{none,valid,truncated,nested-3,14 entries} = %d messages",
+	dims := []int{len(intos), 1, roles, len(types), len(heights), len(rounds), len(signerSets), fds, justs}
+	w.beginStage(fmt.Sprintf("consensus grammar: (ms into slot%v, signature byte%v) x role 0..8 x msgType%v x height%v x round%v x %d signer sets x fulldata{match,mismatch,empty,history's} x justifications{none,valid,truncated,nested-3,14 entries} = %d messages",
 		intos, sigs, types, heights, rounds, len(signerSets), enum.Size(dims)))
 	fullB := []byte("verif-full-data-B")
 	fullA := []byte("verif-full-data-A")
@@ -361,7 +370,7 @@ func (w *worker) stageConsensus() {
 		if !w.own() {
 			return !w.stop
 		}
-		into, sigb, role := intos[ix[0]], sigs[ix[1]], ix[2]
+		into, sigb, role := intos[ix[0]], sigs[ix[0]], ix[2]
 		mt, h, r, signers, fd, just := types[ix[3]], heights[ix[4]], rounds[ix[5]], signerSets[ix[6]], ix[7], ix[8]
 		id := w.msgIDOf(valenv.VKnown, role)
 		sig := dummySig(sigb)
